@@ -5,6 +5,7 @@
 From Coq Require Import List ZArith QArith Qround Bool.
 From PV Require Import lib.Sx lib.Str lib.Result lib.Dec.
 From PV Require Import model.Base spec.SpecBase model.TimeWrite spec.SpecTimeW proofs.TimeWriteFacts.
+From PV Require model.Langs spec.SpecTimeSamiDoc proofs.TimeSamiDocFacts proofs.TimeFloatFacts.
 Import ListNotations.
 Open Scope Z_scope.
 
@@ -200,3 +201,75 @@ Example C02_ex_dfxp_mdvd_oracle :
 Proof. vm_compute. repeat split; reflexivity. Qed.
 Example C02_ex_lattice : rhe ((7 * 100100) # 3) / 1000 = floor_ms ((7 * 100100) # 3) /\ rhe ((7 * 100100) # 3) = 233567.
 Proof. vm_compute. split; reflexivity. Qed.
+
+(* ---- wave 5: the SAMI DOCUMENT with several languages (placement of the syncs of further languages) ------------
+   Langs.sami_write is the model of SAMIWriter's body construction over ALL languages of a set (_recreate_sync,
+   _find_closest_sync); doc_obs l body = the paragraphs of language l in document order as (sync start ms, is blank). *)
+Section SamiDocument.
+Import Langs SpecTimeSamiDoc TimeSamiDocFacts.
+
+(* the first language obeys the statement's sync rule whatever its shape (overlapping, nested, unsorted, repeated
+   cues) and whatever languages follow *)
+Theorem C02_sami_first_language_rule : forall l0 caps0 rest, ~ In l0 (map fst rest) -> texts_ok caps0 ->
+  doc_obs l0 (Langs.sami_write ((l0, caps0) :: rest)) = sami_rule (wspans caps0).
+Proof. exact sami_first_language_rule. Qed.
+Print Assumptions C02_sami_first_language_rule.
+
+(* every language of a set of timelines (sorted, non-overlapping per language; touching and zero-length cues allowed),
+   for ANY number of languages: the syncs of a further language, inserted by time, stand in the rule's order *)
+Theorem C02_sami_every_language_rule : forall cs, NoDup (map fst cs) ->
+  (forall l caps, In (l, caps) cs -> timeline_us 0 caps /\ texts_ok caps) ->
+  forall l caps, In (l, caps) cs -> doc_obs l (Langs.sami_write cs) = sami_rule (wspans caps).
+Proof. exact sami_every_language_rule. Qed.
+Print Assumptions C02_sami_every_language_rule.
+
+(* model meets oracle at document level, every language *)
+Theorem C02_sami_document_meets_oracle : forall cs, NoDup (map fst cs) ->
+  (forall l caps, In (l, caps) cs -> timeline_us 0 caps /\ texts_ok caps) ->
+  forall l caps, In (l, caps) cs -> ok_sami_ms (wspans caps) (doc_obs l (Langs.sami_write cs)) = true.
+Proof. exact sami_document_meets_oracle. Qed.
+Print Assumptions C02_sami_document_meets_oracle.
+
+Theorem C02_sami_first_language_meets_oracle : forall l0 caps0 rest, ~ In l0 (map fst rest) -> texts_ok caps0 ->
+  ok_sami_ms (wspans caps0) (doc_obs l0 (Langs.sami_write ((l0, caps0) :: rest))) = true.
+Proof. exact sami_first_language_meets_oracle. Qed.
+Print Assumptions C02_sami_first_language_meets_oracle.
+
+(* known finding C02-sami-later-language-sync-order at model level: a further language that is no timeline
+   ([(0,1s),(0,1s),(3s,4s)]) is written with exactly the rule's syncs in another document order; the oracle refuses;
+   the same language written FIRST obeys the rule *)
+Theorem C02_sami_later_language_order_refuted :
+  let cs := [(lit "en", ex_en); (lit "fr", ex_fr)] in
+  sami_rule (wspans ex_fr) = [(0, false); (1000, true); (0, false); (1000, true); (3000, false)]
+  /\ doc_obs (lit "fr") (Langs.sami_write cs) = [(0, false); (0, false); (1000, true); (1000, true); (3000, false)]
+  /\ ok_sami_ms (wspans ex_fr) (doc_obs (lit "fr") (Langs.sami_write cs)) = false
+  /\ doc_obs (lit "fr") (Langs.sami_write [(lit "fr", ex_fr); (lit "en", ex_en)]) = sami_rule (wspans ex_fr).
+Proof. exact sami_later_language_order_refuted. Qed.
+Print Assumptions C02_sami_later_language_order_refuted.
+
+(* non-vacuity: three timelines sharing starts and ends, a title cue of a later language before the first sync *)
+Example C02_ex_sami_three_languages :
+  let en := [mkWcue 1000000 2000000 (lit "a"); mkWcue 2000000 2000000 (lit "z"); mkWcue 5000500 6000000 (lit "b")] in
+  let fr := [mkWcue 0 1000000 (lit "t"); mkWcue 1000000 2500000 (lit "c"); mkWcue 5000000 6000999 (lit "d")] in
+  let de := [mkWcue 2500000 5000000 (lit "e")] in
+  let cs := [(lit "en", en); (lit "fr", fr); (lit "de", de)] in
+  map fst (Langs.sami_write cs) = [0; 1000; 2000; 2000; 2500; 5000] /\
+  doc_obs (lit "fr") (Langs.sami_write cs) = [(0, false); (1000, false); (2500, true); (5000, false)] /\
+  doc_obs (lit "fr") (Langs.sami_write cs) = sami_rule (wspans fr) /\
+  doc_obs (lit "en") (Langs.sami_write cs) = [(1000, false); (2000, false); (2000, true); (5000, false)].
+Proof. vm_compute. repeat split; reflexivity. Qed.
+End SamiDocument.
+
+(* ---- wave 5: the binary64 computation int(micro * 25.0 / 10**6) of the real MicroDVD writer ----------------------
+   For integer microseconds below 24 h it equals the exact floor that model and spec use.  Interval argument, the
+   rounding function abstract: micro*25 < 2^53 is exact; the one rounded operation (the division) returns an integer
+   quotient unchanged and is otherwise off by at most 2^-31 below 2^22 (binary64: 2^-32), while a non-integer quotient
+   is at least 10^-6 away from the neighbouring integers.  (floor_frames (inject_Z t) = t * 25 / 1000000:
+   C02_mdvd_frames_int.) *)
+Theorem C02_mdvd_frames_binary64 : forall (rnd : Q -> Q) (t : Z),
+  TimeFloatFacts.rounds_like_binary64_below_2p22 rnd -> (0 <= t < 86400000000)%Z ->
+  Qfloor (rnd ((t * 25) # 1000000)) = (t * 25 / 1000000)%Z.
+Proof. exact TimeFloatFacts.mdvd_frames_binary64. Qed.
+Print Assumptions C02_mdvd_frames_binary64.
+Example C02_ex_rounding_premise : TimeFloatFacts.rounds_like_binary64_below_2p22 (fun y => y).
+Proof. exact TimeFloatFacts.rounds_like_id. Qed.
